@@ -10,6 +10,7 @@
 #define VF_COMMON_H
 #include <errno.h>
 #include <inttypes.h>
+#include <signal.h>
 #include <stdarg.h>
 #include <stdint.h>
 #include <stdio.h>
@@ -51,6 +52,13 @@ static void vf_sample(const char *fmt, ...)
     printf("\n");
 }
 
+static char vf_ctx[256] = "(no case context)";      /* harnesses may describe the running case here: printed if a worker crashes */
+static void vf_crash_handler(int sig)
+{
+    char b[400]; int n = snprintf(b, sizeof b, "FAIL crash/%s | process died with signal %d while running this case\n", vf_ctx, sig);
+    if (n > 0) { ssize_t w = write(1, b, (size_t) n); (void) w; }
+    _exit(1);
+}
 static int vf_nsample = 0;
 /* literal sample of a case this run actually executed: the first few calls in worker 0 (or the parent) are written out */
 #define VF_SAMPLE_CASE(max, ...) do { if (vf_worker_id <= 0 && vf_nsample < (max)) { vf_nsample++; vf_sample(__VA_ARGS__); } } while (0)
@@ -126,6 +134,7 @@ static int vf_parallel(int nw, long lo, long hi, void (*fn)(long), void (*fin)(v
         if (pids[w] == 0) {
             long i;
             vf_worker_id = w;
+            if (getenv("VERIF_NO_CRASH_HANDLER") == NULL && vf_ctx[0] != '(') { signal(SIGSEGV, vf_crash_handler); signal(SIGBUS, vf_crash_handler); signal(SIGABRT, vf_crash_handler); signal(SIGFPE, vf_crash_handler); signal(SIGILL, vf_crash_handler); }
             for (i = lo + w; i < hi; i += nw) {
                 fn(i);
                 if (vf_nfail >= VF_MAXFAIL) break;
